@@ -293,9 +293,20 @@ func (g *Gen) Case() *Case {
 			g.nops++
 		case c.Buf > 0 && g.pct("absorb", g.cfg.PAbsorb):
 			g.steps = append(g.steps, Step{K: KAbsorb})
-			k := rapid.IntRange(1, 6).Draw(t, "absorblen")
-			for i := 0; i < k; i++ {
-				g.fsStep()
+			if files := g.fs.existing(func(p string, k byte) bool {
+				return k == 'f' && (strings.HasPrefix(p, "d0/") || strings.HasPrefix(p, "d1/")) && strings.Count(p, "/") == 1
+			}); len(files) > 0 && c.Buf <= 16 && g.pct("absorbrep", 50) {
+				// fill the buffer to the brim with repeats of one event, plus one more
+				f := g.pick("absorbfile", files)
+				for i := 0; i < c.Buf+1; i++ {
+					g.steps = append(g.steps, Step{K: KWrite, P: P(f), N: 1})
+					g.nops++
+				}
+			} else {
+				k := rapid.IntRange(1, 6).Draw(t, "absorblen")
+				for i := 0; i < k; i++ {
+					g.fsStep()
+				}
 			}
 			g.sync()
 		case g.pct("burst", g.cfg.PBurst):
